@@ -12,4 +12,5 @@ for P in "$@"; do
 done
 git -C /repo checkout -- .
 cp -r $EVBAK/. /verif/evidence/; rm -rf $EVBAK
+python3 /verif/tools/gen_from_source.py > /dev/null   # generated Lean files back to the clean tree's
 git -C /repo status --porcelain --untracked-files=no
